@@ -344,7 +344,14 @@ class Emitter:
                 if 'anyInit' in c:
                     fld = c['anyInit']
                     self.pre = []
-                    e = self.expr(self.kids(c)[0])
+                    init = self.kids(c)[0]
+                    if init.get('kind') == 'CXXDefaultInitExpr':
+                        # default member initialiser: the expression lives at the field's declaration (looked up by the unit builder)
+                        init = (self.f.get('_nsdmi') or {}).get(fld['name'])
+                        if init is None:
+                            raise Unsupported('default member initialiser of %s not available' % fld['name'])
+                        self.rules['default_member_initializer'] += 1
+                    e = self.expr(init)
                     out += ['  ' + p for p in self.pre]
                     self.pre = None
                     self._note_field(self.self_type, fld['name'], fld['type'])
